@@ -837,7 +837,23 @@ def call_module(it, fv, args, kwargs):
     if name == 'ndarray' or name == 'number':
         raise Unsupported('np.%s called' % name)
     if name == 'add.at':
-        raise Unsupported('np.add.at')
+        # np.add.at(a, idx, v): unbuffered accumulation  a[j] += sum_k [idx[k] == j] v[k]  (duplicates allowed)
+        a, idx, v = args[0], args[1], args[2]
+        if not (isinstance(a, SArr) and a.ndim == 1 and isinstance(idx, SArr) and idx.ndim == 1 and idx.dtype == 'int'):
+            raise Unsupported('np.add.at form')
+        ig = npm.fz(idx)
+        if isinstance(v, SArr):
+            npm.shape_eq(ctx, idx.shape, v.shape, 'np.add.at value length')
+            vg = npm.fz(v)
+        else:
+            vg = lambda k: v
+        m = idx.n
+        kk = ctx.fresh('ak', IntS)
+        ctx.add_iterm(kk)
+        ctx.oblige('bounds', 'np.add.at index within bounds', z3.Implies(z3.And(kk >= 0, kk < tz(m)), z3.And(tz(ig(kk)) >= 0, tz(ig(kk)) < tz(a.n))))
+        npm.arr_write(ctx, a, None, lambda j: npm.np_sum(ctx, m, lambda k: zite(b2z(scalar_cmp('==', ig(k), j)), vg(k), 0, fp), 'addat'),
+                      lambda o, add: scalar_arith('+', o, add, fp))
+        return None
     if name == 'real':
         return it.getattr(a0, 'real')
     if name == 'imag':
